@@ -5,7 +5,7 @@
 //! (the quantifier excludes them, or the documentation leaves them open - see NOTES.md): property interpolation,
 //! version ranges, exclusions, a child declaring a dependency its ancestors declare, an import that manages a key an
 //! ancestor manages explicitly, explicit entries placed after an import that manages the same key, `<optional>` in
-//! management entries, `test-jar`-style types without an explicit classifier, roots of scope `system` whose POM has
+//! management entries, roots of a classifier-implying type without that classifier, roots of scope `system` whose POM has
 //! dependencies, missing POMs on paths the rules traverse.
 use crate::model::*;
 use crate::refres::{Effective, Opts, Resolver};
@@ -49,19 +49,35 @@ impl Gen<'_> {
     fn exists(&self, g: &Gav) -> bool { self.stage.repos[0].poms.contains_key(g) }
     fn versions_of(&self, g: &str, a: &str) -> Vec<String> { self.infos.iter().filter(|i| i.gav.g == g && i.gav.a == a).map(|i| i.gav.v.clone()).collect() }
 
-    /// classifier / type decoration for a reference to `target`
-    fn shape(&mut self, target_is_pom: bool) -> (Option<String>, Option<String>) {
+    /// classifier / type decoration for a reference to `target`; `explicit` = never leave the classifier to the type
+    fn shape(&mut self, target_is_pom: bool, explicit: bool) -> (Option<String>, Option<String>) {
         if target_is_pom { return (Some("pom".into()), None); }
         let r = self.rng.below(100);
+        let special = |me: &mut Self, t: &str| {
+            let c = if explicit || me.rng.bool() { implied_classifier(t).map(|c| c.to_string()) } else { None };
+            (Some(t.to_string()), c)
+        };
         match r {
-            0..=62 => (None, None),
-            63..=72 => (Some("jar".into()), None),
-            73..=77 => (Some("war".into()), None),
-            78..=82 => (Some("test-jar".into()), Some("tests".into())),
-            83..=85 => (Some("ejb".into()), None),
-            86..=93 => (None, Some((*self.rng.pick(&CLASSIFIERS)).to_string())),
+            0..=44 => (None, None),
+            45..=52 => (Some("jar".into()), None),
+            53..=56 => (Some("war".into()), None),
+            57..=61 => (Some("ejb".into()), None),
+            62..=65 => (Some("maven-plugin".into()), None),
+            66..=69 => (Some("bundle".into()), None),
+            70..=77 => special(self, "test-jar"),
+            78..=81 => special(self, "ejb-client"),
+            82..=85 => special(self, "java-source"),
+            86..=88 => special(self, "javadoc"),
+            89..=95 => (None, Some((*self.rng.pick(&CLASSIFIERS)).to_string())),
             _ => (Some("jar".into()), Some((*self.rng.pick(&CLASSIFIERS)).to_string())),
         }
+    }
+
+    /// one of the equivalent spellings of a key: `jar` may be left out, and so may a classifier the type implies
+    fn spell(&mut self, k: &Key) -> (Option<String>, Option<String>) {
+        let ty = if k.type_ == "jar" && self.rng.bool() { None } else { Some(k.type_.clone()) };
+        let cl = if k.classifier.as_deref() == implied_classifier(&k.type_) && k.classifier.is_some() && self.rng.bool() { None } else { k.classifier.clone() };
+        (ty, cl)
     }
 
     fn pick_target(&mut self) -> usize {
@@ -120,20 +136,22 @@ impl Gen<'_> {
                 let vs = self.versions_of(&k.group, &k.artifact);
                 if !vs.is_empty() {
                     planted = true;
-                    d = Some(Decl { group: k.group, artifact: k.artifact, version: Some(self.rng.pick(&vs).clone()), type_: if k.type_ == "jar" && self.rng.bool() { None } else { Some(k.type_) }, classifier: k.classifier, scope: None, import: false, optional: None });
+                    let (ty, cl) = self.spell(&k);
+                    d = Some(Decl { group: k.group, artifact: k.artifact, version: Some(self.rng.pick(&vs).clone()), type_: ty, classifier: cl, scope: None, import: false, optional: None });
                 }
             } else if r < 40 && parent_eff.as_ref().is_some_and(|e| !e.mgmt.is_empty()) {
                 let m = self.rng.pick(&parent_eff.as_ref().unwrap().mgmt).clone();
                 let vs = self.versions_of(&m.key.group, &m.key.artifact);
                 if !vs.is_empty() {
-                    d = Some(Decl { group: m.key.group, artifact: m.key.artifact, version: Some(self.rng.pick(&vs).clone()), type_: if m.key.type_ == "jar" && self.rng.bool() { None } else { Some(m.key.type_) }, classifier: m.key.classifier, scope: None, import: false, optional: None });
+                    let (ty, cl) = self.spell(&m.key);
+                    d = Some(Decl { group: m.key.group, artifact: m.key.artifact, version: Some(self.rng.pick(&vs).clone()), type_: ty, classifier: cl, scope: None, import: false, optional: None });
                 }
             } else if r < 48 {
                 d = Some(Decl { group: "org.ghost".into(), artifact: format!("unused-{}", self.rng.below(3)), version: Some("9.9".into()), type_: None, classifier: None, scope: None, import: false, optional: None });
             }
             let mut d = match d { Some(d) => d, None => {
                 let t = self.pick_target();
-                let (ty, cl) = self.shape(self.infos[t].pom_pkg);
+                let (ty, cl) = self.shape(self.infos[t].pom_pkg, false);
                 let tg = &self.infos[t].gav;
                 Decl { group: tg.g.clone(), artifact: tg.a.clone(), version: Some(tg.v.clone()), type_: ty, classifier: cl, scope: None, import: false, optional: None }
             } };
@@ -186,13 +204,16 @@ impl Gen<'_> {
             let mut d;
             let target: Gav;
             if !usable.is_empty() && self.rng.chance(45, 100) {
-                let (k, v, _) = self.rng.pick(&usable).clone();
+                // managed entries of a type that implies a classifier are preferred now and then
+                let special: Vec<&(Key, String, Option<Scope>)> = usable.iter().filter(|(k, _, _)| implied_classifier(&k.type_).is_some()).collect();
+                let (k, v, _) = if !special.is_empty() && self.rng.chance(35, 100) { (*self.rng.pick(&special)).clone() } else { self.rng.pick(&usable).clone() };
                 target = Gav::new(&k.group, &k.artifact, &v);
                 let explicit_version = self.rng.chance(12, 100);
-                d = Decl { group: k.group, artifact: k.artifact, version: if explicit_version { Some(v) } else { None }, type_: if k.type_ == "jar" && self.rng.bool() { None } else { Some(k.type_) }, classifier: k.classifier, scope: None, import: false, optional: None };
+                let (ty, cl) = self.spell(&k);
+                d = Decl { group: k.group, artifact: k.artifact, version: if explicit_version { Some(v) } else { None }, type_: ty, classifier: cl, scope: None, import: false, optional: None };
             } else {
                 let t = self.pick_target();
-                let (ty, cl) = self.shape(self.infos[t].pom_pkg);
+                let (ty, cl) = self.shape(self.infos[t].pom_pkg, false);
                 target = self.infos[t].gav.clone();
                 d = Decl { group: target.g.clone(), artifact: target.a.clone(), version: Some(target.v.clone()), type_: ty, classifier: cl, scope: None, import: false, optional: None };
             }
@@ -233,7 +254,7 @@ impl Gen<'_> {
             let pom_pkg = i.pom_pkg;
             let gav = i.gav.clone();
             total += i.size_upper;
-            let (ty, cl) = self.shape(pom_pkg);
+            let (ty, cl) = self.shape(pom_pkg, true);
             let mut scope = match self.rng.below(100) { 0..=41 => Scope::Compile, 42..=66 => Scope::Runtime, 67..=79 => Scope::Test, 80..=92 => Scope::Provided, _ => Scope::System };
             if scope == Scope::System && !eff(&self.stage, &gav).deps.is_empty() { scope = Scope::Compile; }
             self.stage.roots.push((Coord { group: gav.g.clone(), artifact: gav.a.clone(), version: gav.v.clone(), classifier: cl.clone(), type_: ty.clone().unwrap_or_else(|| "jar".into()) }, scope));
